@@ -235,7 +235,15 @@ func TransformModuleFilesToModel( //nolint:funlen,gocognit,cyclop
 				relation := typeDef.GetRelations()[name]
 
 				if slices.Contains(existingRelationNames, name) {
-					lineIndex := utils.GetRelationLineNumber(name, lines)
+					// the relation is looked for below the 'extend type' line of this type, another type of the same
+					// file may define a relation of the same name
+					lineIndex := -1
+					if extendIndex := utils.GetExtendedTypeLineNumber(typeDef.GetType(), lines); extendIndex != -1 {
+						if offset := utils.GetRelationLineNumber(name, lines[extendIndex+1:]); offset != -1 {
+							lineIndex = extendIndex + 1 + offset
+						}
+					}
+
 					line, col := utils.ConstructLineAndColumnData(lines, lineIndex, name)
 					transformErrors = multierror.Append(transformErrors, &ModuleTransformationSingleError{
 						Msg:    fmt.Sprintf("relation %s already exists on type %s", name, typeDef.GetType()),
